@@ -165,9 +165,10 @@ def real_import(dadi, g0, sd, ts, Ne, theta):
 
 def k_gen_import(chk, ctx, rng, n, eval_sym):
     """the whole import (tail of SFS: events, integration parameters, _compute_sfs, final reordering, from_phi) — generated program vs
-    the real code under recording stubs; and (L3, on the code alone) the reference size reaches every scaled quantity"""
-    dadi = ctx['dadi']; drv = ctx['driver']
-    from .c16 import resolve
+    the real code under recording stubs; and (L3, on the code alone) the reference size reaches every scaled quantity, and the frozen
+    branch of an ancient sample keeps size 1 when the graph is rescaled"""
+    dadi = ctx['dadi']
+    from .c16 import resolve, scale_graph
     for it in range(n):
         h = S.History(rng, max_live=5, want_ancient=(it % 3 == 1), small_Ne=(it % 3 == 1))
         gd = h.graph_dict(); g0 = resolve(gd); N = G.Names([d.name for d in g0.demes])
@@ -175,35 +176,118 @@ def k_gen_import(chk, ctx, rng, n, eval_sym):
         Ne = None if rng.random() < 0.5 else float(h.Ne * rng.choice([0.5, 2.0, 1.37]))
         theta = float(rng.choice([1.0, 2.5]))
         inp = dict(kind='gen-import', graph=common.jsonable(gd), samples=[list(x) for x in h.samples], Ne=Ne, theta=theta)
-        res, g, sampled, frozen, partial = real_import(dadi, g0, sd, ts, Ne, theta)
-        if g is None or frozen is None:
-            chk.k_skipped += 1; chk.stat('K-gimport:not-reached'); continue
-        ans = drv.ask('c16g gimport %s %s %s %s %s %s none none %s' % (G.enc_graph(g.asdict(), N), G.lib_events(g, N), N.encs(sampled), N.encs(frozen),
-                                                                      'none' if Ne is None else rat(Ne), rat(theta), FR_TOK))
-        if isinstance(res, str):
-            ok = ans.startswith('err raises')
-            (chk.k_ok('gimport') if ok else chk.k_bad('gimport', inp, res, ans[:300], 'the code raises, the generated program does not'))
-            chk.stat('K-gimport:code-raises'); continue
-        if not ans.startswith('ok '):
-            chk.k_bad('gimport', inp, show_calls(res), ans[:300], 'the generated program raises / model error'); continue
-        toks = ans.split()[1].split(';')
-        why = None if len(toks) == len(res) else 'number of calls %d vs %d' % (len(res), len(toks))
-        if why is None:
-            for r, t in zip(res, toks):
-                why = call_matches(r, t, N, eval_sym)
-                if why is not None: break
-        (chk.k_ok('gimport') if why is None else chk.k_bad('gimport', inp, show_calls(res), ans[:600], why))
-        for c in res: chk.stat('K-gimport:call:' + {'P': 'phi_1D', 'I': 'integrate', 'X': 'remove_pop', 'R': 'reorder_pops', 'S': '_split_phi', 'N': '_admix_new_pop_phi', 'A': '_admix_phi', 'F': 'from_phi'}[c[0]])
-        if frozen: chk.stat('K-gimport:with-frozen-branches')
+        res = import_case(chk, ctx, g0, sd, ts, Ne, theta, inp, N, eval_sym, 'history')
+        if res is None: continue
+        for c_ in res: chk.stat('K-gimport:call:' + {'P': 'phi_1D', 'I': 'integrate', 'X': 'remove_pop', 'R': 'reorder_pops', 'S': '_split_phi', 'N': '_admix_new_pop_phi', 'A': '_admix_phi', 'F': 'from_phi'}[c_[0]])
         if Ne is not None: chk.stat('K-gimport:explicit-Ne')
         # ---- L3 (code alone): Ne -> Ne / c
         c = float(rng.choice([2.0, 0.5, 3.0]))
-        base = Ne if Ne is not None else float(dadi.Demes.Demes._get_root_Ne(g))
-        chk.l3(('Ne-threaded', c, len(res), bool(frozen), Ne is None))
+        base = Ne if Ne is not None else float(dadi.Demes.Demes._get_root_Ne(g0))
+        chk.l3(('Ne-threaded', c, len(res), any(t > 0 for t in ts), Ne is None))
         why = ne_threaded(dadi, g0, sd, ts, base, c, theta)
         if why is not None:
             chk.fail('Ne:threaded:mismatch', 'from_demes with Ne = %g and with Ne = %g / %g: %s' % (base, base, c, why),
                      dict(kind='Ne-threaded', graph=common.jsonable(gd), samples=[list(x) for x in h.samples], Ne=base, c=c, theta=theta))
+        # ---- L3 (code alone): the graph written with sizes and times x c, rates / c (default reference size): same calls; with ancient samples
+        #      everything but the relative size of the frozen branches, which is 1 / (c Ne) instead of 1 / Ne
+        chk.l3(('scale-calls', c, len(res), any(t > 0 for t in ts)))
+        why = scaled_calls(dadi, gd, sd, ts, c, theta, resolve, scale_graph)
+        if why is not None:
+            chk.fail('scale:frozen-branch:mismatch', 'sizes and times x %g, rates / %g, default reference size: %s' % (c, c, why),
+                     dict(kind='scale-frozen', graph=common.jsonable(gd), samples=[list(x) for x in h.samples], c=c, theta=theta))
+
+def scaled_calls(dadi, gd, sd, ts, c, theta, resolve, scale_graph):
+    a = real_import(dadi, resolve(gd), sd, ts, None, theta)[0]
+    b = real_import(dadi, resolve(scale_graph(gd, c)), sd, [t * c for t in ts], None, theta)[0]
+    if isinstance(a, str) or isinstance(b, str):
+        return None if a == b else 'one run raises: %r vs %r' % (a if isinstance(a, str) else 'ok', b if isinstance(b, str) else 'ok')
+    if len(a) != len(b): return 'number of calls %d vs %d' % (len(a), len(b))
+    def base(n): return n.split('_sampled_')[0]
+    for x, y in zip(a, b):
+        if x[0] != y[0]: return 'call %s vs %s' % (x[0], y[0])
+        if x[0] == 'P':
+            if not near(x[1], y[1], 1e-10): return 'phi_1D nu %r vs %r' % (x[1], y[1])
+        elif x[0] == 'I':
+            if x[1] != y[1] or [base(n) for n in x[3]] != [base(n) for n in y[3]] or [bool(v) for v in x[4]] != [bool(v) for v in y[4]]: return 'integrator / demes / frozen flags differ'
+            if not near(x[2], y[2], 1e-10): return '%s: T %r vs %r' % (x[1], x[2], y[2])
+            for r1, r2 in zip(x[5], y[5]):
+                if not all(near(m1, m2, 1e-10) for m1, m2 in zip(r1, r2)): return '%s: migration %r vs %r' % (x[1], r1, r2)
+            for k, (e1, e2) in enumerate(zip(x[6], y[6])):
+                v1 = nu_values(e1, x[2]); v2 = nu_values(e2, y[2])
+                if x[4][k]:
+                    if not all(near(q * c, p, 1e-9) for p, q in zip(v1, v2)): return '%s: frozen branch size %r vs %r (expected / %g: absolute size 1)' % (x[1], v1, v2, c)
+                elif not all(near(p, q, 1e-9) for p, q in zip(v1, v2)): return '%s: relative size %r vs %r' % (x[1], v1, v2)
+    return None
+
+def import_case(chk, ctx, g0, sd, ts, Ne, theta, inp, N, eval_sym, tag):
+    """one graph: the real tail of SFS under recording stubs vs the generated program"""
+    dadi = ctx['dadi']; drv = ctx['driver']
+    res, g, sampled, frozen, partial = real_import(dadi, g0, sd, ts, Ne, theta)
+    if g is None or frozen is None:
+        chk.k_skipped += 1; chk.stat('K-gimport:not-reached'); return None
+    ans = drv.ask('c16g gimport %s %s %s %s %s %s none none %s' % (G.enc_graph(g.asdict(), N), G.lib_events(g, N), N.encs(sampled), N.encs(frozen),
+                                                                  'none' if Ne is None else rat(Ne), rat(theta), FR_TOK))
+    if isinstance(res, str):
+        ok = ans.startswith('err raises')
+        (chk.k_ok('gimport') if ok else chk.k_bad('gimport', inp, res, ans[:300], 'the code raises, the generated program does not'))
+        chk.stat('K-gimport:%s:code-raises' % tag); return None
+    if not ans.startswith('ok '):
+        chk.k_bad('gimport', inp, show_calls(res), ans[:300], 'the generated program raises / model error'); return None
+    toks = ans.split()[1].split(';')
+    why = None if len(toks) == len(res) else 'number of calls %d vs %d' % (len(res), len(toks))
+    if why is None:
+        for r, t in zip(res, toks):
+            why = call_matches(r, t, N, eval_sym)
+            if why is not None: break
+    (chk.k_ok('gimport') if why is None else chk.k_bad('gimport', inp, show_calls(res), ans[:600], why))
+    chk.stat('K-gimport:%s' % tag)
+    return res
+
+def k_gen_import_exported(chk, ctx, rng, n, eval_sym):
+    """graphs written by Demes.output (every population renamed at every Split record): the re-import, generated program vs real code —
+    clean programs and programs with an admixture-created population (both sides raise: the open known finding)"""
+    dadi = ctx['dadi']
+    from .c16 import output_with_record
+    for it in range(n):
+        ops, d = S.random_program(rng, max_pops=int(rng.choice([2, 3, 4, 5])), p_reorder=0.45, clean=(it % 3 != 2))
+        try:
+            S.run_program(dadi, ops, 5)
+            g, record = output_with_record(dadi, Nref=1000.0)
+        except Exception:
+            chk.k_skipped += 1; chk.stat('K-gimport:export-raises'); continue
+        ids = list(record[-1].deme_ids)
+        N = G.Names([x.name for x in g.demes])
+        import_case(chk, ctx, g, ids, [0.0] * len(ids), None, 1.0, dict(kind='gen-import-exported', ops=common.jsonable(ops)), N, eval_sym, 'exported')
+
+def frozen_dt_oracle(chk, ctx, rng, n):
+    """L3 on the real integrators: the size of a frozen population does not change the result as long as it does not change the time step
+    (`_compute_dt` takes the minimum over all populations, frozen ones included)"""
+    dadi = ctx['dadi']; I = dadi.Integration
+    for it in range(n):
+        d = int(rng.choice([2, 3]))
+        pts = 12
+        xx = dadi.Numerics.default_grid(pts)
+        phi = dadi.PhiManip.phi_1D(xx)
+        phi = dadi.PhiManip.phi_1D_to_2D(xx, phi)
+        if d == 3: phi = dadi.PhiManip.phi_2D_to_3D_split_1(xx, phi)
+        nus = [float(rng.uniform(0.5, 2.0)) for _ in range(d)]
+        k = d - 1                                           # the frozen population
+        T = float(rng.uniform(0.02, 0.1))
+        def run(nuk):
+            v = list(nus); v[k] = nuk
+            kw = {('nu%d' % (i + 1)): v[i] for i in range(d)}
+            kw['frozen%d' % (k + 1)] = True
+            f = I.two_pops if d == 2 else I.three_pops
+            return np.asarray(f(phi.copy(), xx, T, **kw))
+        small = min(nus[:k])
+        a = run(small * 1.5); b = run(small * 40.0)          # both larger than every live size: the time step is set by a live population
+        c_ = run(small / 50.0)                                # much smaller: it sets the time step
+        chk.l3(('frozen-dt', d, round(T, 3)))
+        if not np.array_equal(a, b):
+            chk.fail('frozen:nu-used', '%d populations, the last frozen: changing its size from %g to %g (both above every live size, same time step) '
+                     'changes phi by %.2e' % (d, small * 1.5, small * 40.0, float(np.max(np.abs(a - b)))), dict(kind='frozen-dt', d=d, nus=nus, T=T))
+        chk.stat('frozen-dt:identical' if np.array_equal(a, b) else 'frozen-dt:different')
+        chk.stat('frozen-dt:smaller-step-differs' if not np.array_equal(a, c_) else 'frozen-dt:smaller-step-same')
 
 def ne_threaded(dadi, g0, sd, ts, Ne, c, theta):
     """recorded calls with the reference size Ne and Ne / c: same calls, T x c, M / c, every nu x c (root, frozen branches, size functions)"""
@@ -452,6 +536,14 @@ def replay_case(chk, ctx, inp):
         why = wiring_violation(real, d, nu, gam, hh, fr, M, ids)
         if why is not None: chk.fail('wiring:integrate:own-index', 'replay: ' + why, common.jsonable(inp))
         return
+    if inp['kind'] == 'scale-frozen':
+        from .c16 import scale_graph
+        smp = [tuple(x) for x in inp['samples']]
+        why = scaled_calls(dadi, inp['graph'], [a for a, _ in smp], [t for _, t in smp], inp['c'], inp['theta'], resolve, scale_graph)
+        if why is not None: chk.fail('scale:frozen-branch:mismatch', 'replay: ' + why, common.jsonable(inp))
+        return
+    if inp['kind'] == 'frozen-dt':
+        chk.l3(('frozen-dt-replay',)); return
     if inp['kind'] == 'Ne-threaded':
         g0 = resolve(inp['graph']); smp = [tuple(x) for x in inp['samples']]
         why = ne_threaded(dadi, g0, [a for a, _ in smp], [t for _, t in smp], inp['Ne'], inp['c'], inp['theta'])
